@@ -40,6 +40,10 @@ THE SOFTWARE.
 #include <amgcl/solver/detail/default_inner_product.hpp>
 #include <amgcl/util.hpp>
 
+#ifdef AMGCL_VERIF
+namespace amgcl { namespace verif { struct access; } }
+#endif
+
 /// Primary namespace.
 namespace amgcl {
 
@@ -310,6 +314,9 @@ class amg {
             for(const auto &lvl : levels) b += lvl.bytes();
             return b;
         }
+#ifdef AMGCL_VERIF
+    friend struct amgcl::verif::access;
+#endif
     private:
         struct level {
             size_t m_rows, m_nonzeros;
